@@ -3,6 +3,8 @@
 (* spec -> impl case export for the language engine (C03, C04, C05, C12).  *)
 (*  MODE = "tokens" : every token-kind string of 1..N tokens, with         *)
 (*                    positional payloads, spelled spaced / tight / mixed  *)
+(*  MODE = "near"   : every one-token insertion into a sentence of exactly  *)
+(*                    N tokens (near-misses one token beyond "tokens")     *)
 (*  MODE = "chars"  : every character string of 1..N characters over the   *)
 (*                    alphabet ALPHA ("full" or "small")                   *)
 (*  MODE = "sent"   : every ABNF sentence of 1..N tokens with its          *)
@@ -23,15 +25,30 @@ Toks(ks) == [i \in DOMAIN ks |-> Def(ks[i], i)]
 
 ModeAt(i) == <<"spaced", "tight", "mixed">>[(i % 3) + 1]
 
-TokenCases ==
+TokenCases(z) ==
   LET all == SetToSeq(UNION {[1..n -> Kinds] : n \in 1..N})
   IN [i \in DOMAIN all |-> [e |-> "lang", text |-> Spell(Toks(all[i]), ModeAt(i), i % 2)]]
+
+(* near-misses: every string obtained from a sentence of exactly N tokens by inserting one token (N+1 tokens:
+   beyond the exhaustive token enumeration), spelled like the token cases *)
+InsTok(ks, i, k) == SubSeq(ks, 1, i - 1) \o <<k>> \o SubSeq(ks, i, Len(ks))
+NearCases(z) ==
+  LET G == Sets(N)
+      S == SetToSeq(G.E[N])
+      np == N + 1
+      nk == Len(KindSeq)
+      total == Len(S) * np * nk
+      \* x - 1 = ((si - 1) * np + (pi - 1)) * nk + (ki - 1): no big set is built (duplicates are harmless)
+      si(x) == ((x - 1) \div (np * nk)) + 1
+      pi(x) == (((x - 1) \div nk) % np) + 1
+      ki(x) == ((x - 1) % nk) + 1
+  IN [x \in 1..total |-> [e |-> "lang", text |-> Spell(Toks(InsTok(S[si(x)], pi(x), KindSeq[ki(x)])), ModeAt(x), x % 2)]]
 
 Full  == <<97, 98, 48, 49, 45, 46, 42, 91, 93, 63, 124, 38, 64, 123, 125, 40, 41, 44, 58, 61, 60, 62, 33,
            39, 34, 96, 92, 32, 233>>
 Small == <<97, 49, 45, 46, 91, 93, 42, 124, 38, 61, 33, 39, 34, 96, 92, 32, 40, 41, 44, 58>>
 Alpha == IF IOEnv.ALPHA = "full" THEN Full ELSE Small
-CharCases ==
+CharCases(z) ==
   LET A == {Alpha[i] : i \in DOMAIN Alpha}
       all == SetToSeq(UNION {[1..n -> A] : n \in 1..N})
   IN [i \in DOMAIN all |-> [e |-> "lang", text |-> all[i]]]
@@ -49,20 +66,35 @@ Docs == <<Doc1, Doc2>>
 (* the documents are written once, to OUT.docs; the driver searches every case with a ptext against them *)
 SentCase(ts, docs) == [e |-> "lang", text |-> Spell(ts, "spaced", 0),
                        ptext |-> Spell(Parenthesise(ts), "spaced", 0)]
-SentCases ==
+SentCases(z) ==
   LET G == Sets(N)
       all == SetToSeq(UNION {G.E[n] : n \in 1..N})
       docs == Docs
   IN [i \in DOMAIN all |-> SentCase(Toks(all[i]), docs)]
 
-SpellCases ==
+(* operator chains: a primary followed by every sequence of 1..N postfix operators, also under "!" and as the
+   right operand of a comparison (every pair and chain of postfix operators is juxtaposed) *)
+Postfix == {<<"Dot", "Ident">>, <<"Lbracket", "Num", "Rbracket">>, <<"Lbracket", "Star", "Rbracket">>, <<"Flatten">>,
+            <<"Filter", "Ident", "Rbracket">>, <<"Lbracket", "Num", "Colon", "Rbracket">>, <<"Dot", "Star">>,
+            <<"Dot", "Lbrace", "Ident", "Colon", "Ident", "Rbrace">>, <<"Dot", "Lbracket", "Ident", "Rbracket">>}
+RECURSIVE ChainsOf(_)
+ChainsOf(n) == IF n = 0 THEN {<<>>} ELSE LET c == ChainsOf(n - 1) IN c \cup {x \o p : x \in c, p \in Postfix}
+ChainKinds(z) == LET cs == ChainsOf(N) \ {<<>>}
+              IN {<<"Ident">> \o c : c \in cs} \cup {<<"Not", "Ident">> \o c : c \in cs}
+                 \cup {<<"At", "Cmp", "Ident">> \o c : c \in ChainsOf(N - 1) \ {<<>>}}
+ChainCases(z) ==
+  LET all == SetToSeq(ChainKinds(0)) docs == Docs
+  IN [i \in DOMAIN all |-> SentCase(Toks(all[i]), docs)]
+
+SpellCases(z) ==
   LET ps == ndJsonDeserialize(IOEnv.IN)
       docs == Docs
   IN [i \in DOMAIN ps |-> SentCase(ps[i].toks, docs)]
 
-Cases == CASE IOEnv.MODE = "tokens" -> TokenCases [] IOEnv.MODE = "chars" -> CharCases
-           [] IOEnv.MODE = "sent" -> SentCases [] IOEnv.MODE = "spell" -> SpellCases
+Cases(z) == CASE IOEnv.MODE = "tokens" -> TokenCases(0) [] IOEnv.MODE = "chars" -> CharCases(0) [] IOEnv.MODE = "near" -> NearCases(0)
+           [] IOEnv.MODE = "sent" -> SentCases(0) [] IOEnv.MODE = "spell" -> SpellCases(0)
+           [] IOEnv.MODE = "chains" -> ChainCases(0)
 
-ASSUME ndJsonSerialize(IOEnv.OUT, Cases)
+ASSUME ndJsonSerialize(IOEnv.OUT, Cases(0))
 ASSUME ndJsonSerialize(IOEnv.OUT \o ".docs", <<[docs |-> Docs]>>)
 =============================================================================
